@@ -64,7 +64,8 @@ func (n *MatchExpressionNode) Equal(other value.Value) bool {
 func (n *MatchExpressionNode) String() string {
 	var buff strings.Builder
 
-	leftParen := ExpressionPrecedence(n) > ExpressionPrecedence(n.Expression)
+	// the matched value is parsed at the level of the bitwise or operator
+	leftParen := ExpressionPrecedence(n.Expression) < matchOperandPrecedence
 	if leftParen {
 		buff.WriteRune('(')
 	}
